@@ -111,7 +111,7 @@ def accumulator_loop(n_limit: int, m0_len: int, gen_node: bool = False, gate: st
     return {"spec": spec, "inputs": inputs, "ref": ref, "template": f"accumulator({gate})"}
 
 
-def signal_loop(n_limit: int, c0: int, kind: str = "counter", open_: bool = True, name: str = "sig"):
+def signal_loop(n_limit: int, c0: int, kind: str = "counter", open_: bool = True, name: str = "sig", observers: int = 0):
     """T6: gate synchronised on an ordering signal emitted by the last body node.
 
     The gate cannot run before the signal exists, so a default-open body runs once
@@ -155,9 +155,20 @@ def signal_loop(n_limit: int, c0: int, kind: str = "counter", open_: bool = True
                     break
         vals = _fold(inputs, trace)
         vals.setdefault("messages", list(m0))
+    counts = _counts(trace)
+    single = True
+    if observers and kind == "counter":
+        # extra waiters on the same signal: each runs once per production of the signal
+        # (their data input, the counter, changes with every production)
+        for i in range(observers):
+            nodes.append({"k": "fn", "name": f"obs{i}", "params": [{"n": "count"}], "outs": [f"seen{i}"], "wait": ["done"], "beh": ["mark", "count", f"obs{i}"]})
+            if counts.get("step"):
+                counts[f"obs{i}"] = counts["step"]
+                vals[f"seen{i}"] = (f"obs{i}", vals["count"])
+        single = False
     spec = {"name": name, "nodes": nodes, "bind": {}}
-    ref = {"trace": trace, "values": vals, "counts": _counts(trace), "singleton_steps": True, "steps": len(trace)}
-    return {"spec": spec, "inputs": inputs, "ref": ref, "template": f"signal({kind},open={open_})"}
+    ref = {"trace": trace if single else None, "values": vals, "counts": counts, "singleton_steps": single, "steps": len(trace)}
+    return {"spec": spec, "inputs": inputs, "ref": ref, "template": f"signal({kind},open={open_},observers={observers})"}
 
 
 def nested_loop(n_limit: int, c0: int, body_len: int = 1, gate: str = "route", depth: int = 1):
@@ -201,10 +212,48 @@ def gen_loop(rng):
     if t == "acc":
         return accumulator_loop(n, c0, gate=rng.choice(["route", "ifelse"]))
     if t == "signal":
-        return signal_loop(n, c0, rng.choice(["counter", "chat"]), rng.random() < 0.85)
+        return signal_loop(n, c0, rng.choice(["counter", "chat"]), rng.random() < 0.85, observers=rng.choice([0, 0, 1, 2]))
     if t == "nested":
         # body length 1 only: a nested cyclic graph with several entry points exposes all of
         # their parameters as wrapper inputs (examined under C08, not here)
         return nested_loop(n, c0, 1, rng.choice(["route", "ifelse"]), rng.randint(1, 3))
     L = rng.randint(2, 3)
     return counter_loop(n, c0, L, rng.choice(["route", "ifelse"]), rng.random() < 0.4, True, entry_at=rng.randint(1, L - 1), use_with_entrypoint=rng.random() < 0.5)
+
+
+def seeded_wait(n_waiters: int = 1, name: str = "seedw"):
+    """A self-accumulating producer whose (cycle) input is seeded by the caller, and
+    waiters on that value name: producer and waiters are runnable together in the
+    first step, the waiters must still come strictly after the producer."""
+    nodes = [{"k": "fn", "name": "acc", "params": [{"n": "messages"}, {"n": "item"}], "outs": ["messages"], "beh": ["append", "messages", "item"]}]
+    vals = {"messages": [("m", 0), 7]}
+    counts = {"acc": 1}
+    for i in range(n_waiters):
+        nodes.append({"k": "fn", "name": f"w{i}", "params": [{"n": "q"}], "outs": [f"seen{i}"], "wait": ["messages"], "beh": ["mark", "q", f"w{i}"]})
+        vals[f"seen{i}"] = (f"w{i}", 5)
+        counts[f"w{i}"] = 1
+    spec = {"name": name, "nodes": nodes, "bind": {}}
+    inputs = {"messages": [("m", 0)], "item": 7, "q": 5}
+    ref = {"trace": None, "values": vals, "counts": counts, "singleton_steps": False, "steps": 2}
+    return {"spec": spec, "inputs": inputs, "ref": ref, "template": f"seeded-wait(waiters={n_waiters})"}
+
+
+def once_signal_loop(n_limit: int, c0: int, name: str = "once"):
+    """A counter loop plus a waiter on a signal that is produced exactly once (by an
+    init node outside the loop) while the waiter's data input changes every
+    iteration: the waiter runs once and never again."""
+    t = counter_loop(n_limit, c0, 1, "route", name=name)
+    spec = t["spec"]
+    spec["nodes"].append({"k": "fn", "name": "init", "params": [{"n": "seed"}], "outs": ["aux"], "emit": ["ready"], "beh": ["inc", "seed"]})
+    spec["nodes"].append({"k": "fn", "name": "obs", "params": [{"n": "count"}], "outs": ["seen"], "wait": ["ready"], "beh": ["mark", "count", "obs"]})
+    inputs = dict(t["inputs"])
+    inputs["seed"] = 0
+    R = t["ref"]
+    vals = dict(R["values"])
+    vals["aux"] = 1
+    vals["seen"] = ("obs", c0)
+    counts = dict(R["counts"])
+    counts["init"] = 1
+    counts["obs"] = 1
+    ref = {"trace": None, "values": vals, "counts": counts, "singleton_steps": False, "steps": None}
+    return {"spec": spec, "inputs": inputs, "ref": ref, "template": f"once-signal(N={n_limit},c0={c0})"}
